@@ -25,7 +25,7 @@ PROP = {
     "assumptions": ["exact 128-bit rational Liang-Barsky in harness/mon_c09.cpp is correct",
                     "the order clause is judged as: a non-decreasing assignment of input arc-length parameters to all result "
                     "vertices and edge midpoints (each within 1.5 units of the input at its parameter) exists"],
-    "floor": _q(40000, 1000000),
+    "floor": _q(120000, 3000000),
     "must_count": _q(["length_checked", "order_points_mapped", "multi_polyline_calls", "polylines_crossing_the_boundary",
                       "calls_with_segments_along_a_side", "length_checks_with_slack_below_quarter_of_length"],
                      ["length_checked", "order_points_mapped", "multi_polyline_calls", "polylines_crossing_the_boundary",
@@ -34,6 +34,6 @@ PROP = {
     "jobs": [
         # address-space cap and a short watchdog: a defect in the clip loop that allocates without bound must end as a
         # crash/timeout report, not take the machine down (the monitors themselves need < 100 MB)
-        {"mon": "mon_c09", "cfg": "plain", "cases": _q(100000, 4000000), "prefix": ["prlimit", "--as=4000000000"]},
+        {"mon": "mon_c09", "cfg": "plain", "cases": _q(300000, 8000000), "prefix": ["prlimit", "--as=4000000000"]},
     ],
 }
